@@ -1,9 +1,181 @@
-//! stub — not built yet
+//! frag4 — C12 "IPv4 fragmentation and reassembly reproduce the datagram or deliver nothing".
+//!
+//! Parts (all on the REAL smoltcp `Interface`, observed only at the device and at the sockets):
+//!  * tx/S1  single-datagram sweep (E2): every UDP payload length x MTU x medium, one datagram,
+//!           polled to quiescence, frames checked by an independent reassembler.
+//!  * tx/S1b sequential pairs (E2): two datagrams (udp / raw / ingress-triggered echo reply) one
+//!           after the other, each run to quiescence (state left behind by the first must not
+//!           leak into the second).
+//!  * tx/S2  back-to-back (E1 BFS): two UDP sockets + raw socket + inbound oversized echo
+//!           requests, interleaved with poll / poll_egress / ingress / device back-pressure.
+//!  * rx     (E2): all permutations (+ one duplicate, + overlapping retransmission, + two
+//!           interleaved datagrams) of fragment sets built by our own fragmenter, delivered to
+//!           an interface with a bound udp / raw socket.
+//!
+//! Oracles never use `smoltcp::wire`; `Interface::verif_digest` is used for BFS fingerprints only.
+
 use crate::core::*;
-pub fn run(_tier: Tier) -> i32 {
-    eprintln!("harness not built yet");
-    2
+use crate::sim::*;
+use serde_json::{json, Value};
+use smoltcp::iface::{Config, Interface, SocketHandle, SocketSet};
+use smoltcp::phy::Medium;
+use smoltcp::socket::{raw, udp};
+use smoltcp::time::Instant;
+use smoltcp::wire::{EthernetAddress, HardwareAddress, IpAddress, IpCidr, IpProtocol, IpVersion};
+
+mod bfs;
+mod rx;
+mod tx;
+pub mod wire;
+
+use wire::*;
+
+pub(crate) const PEER_PORT: u16 = 2000;
+pub(crate) const UDP_PORT0: u16 = 1000;
+
+/// A real interface + device + socket set.
+pub(crate) struct Net {
+    pub iface: Interface,
+    pub dev: SimDevice,
+    pub sockets: SocketSet<'static>,
+    pub eth: bool,
+    pub ip_mtu: usize,
+    pub polls: u64,
 }
-pub fn replay(_art: &serde_json::Value) -> i32 {
-    2
+
+pub(crate) fn now() -> Instant {
+    // no time passes anywhere in this harness (reassembly timeout never exceeded)
+    Instant::from_millis(0)
+}
+
+impl Net {
+    /// `ip_mtu` is the IP MTU; on Ethernet the device MTU is 14 bytes larger (smoltcp's
+    /// `max_transmission_unit` includes the Ethernet header).
+    pub fn new(eth: bool, ip_mtu: usize) -> Result<Net, String> {
+        let medium = if eth { Medium::Ethernet } else { Medium::Ip };
+        let mut dev = SimDevice::new(medium, if eth { ip_mtu + 14 } else { ip_mtu });
+        let hw = if eth { HardwareAddress::Ethernet(EthernetAddress(OUR_MAC)) } else { HardwareAddress::Ip };
+        let mut cfg = Config::new(hw);
+        cfg.random_seed = 0x5eed_c12;
+        let mut iface = Interface::new(cfg, &mut dev, now());
+        iface.update_ip_addrs(|a| {
+            a.push(IpCidr::new(IpAddress::v4(OUR_IP[0], OUR_IP[1], OUR_IP[2], OUR_IP[3]), 24)).unwrap();
+        });
+        let mut net = Net { iface, dev, sockets: SocketSet::new(vec![]), eth, ip_mtu, polls: 0 };
+        if eth {
+            // pre-resolve the peer: smoltcp fills the neighbor cache from any ARP packet aimed at us
+            net.dev.rx.push_back(arp_reply());
+            net.poll();
+            if !net.dev.tx.is_empty() {
+                return Err("unexpected output while pre-resolving the neighbor".into());
+            }
+        }
+        Ok(net)
+    }
+    pub fn dev_mtu(&self) -> usize {
+        if self.eth {
+            self.ip_mtu + 14
+        } else {
+            self.ip_mtu
+        }
+    }
+    pub fn poll(&mut self) {
+        self.polls += 1;
+        self.iface.poll(now(), &mut self.dev, &mut self.sockets);
+    }
+    pub fn poll_at_is_none(&mut self) -> bool {
+        self.iface.poll_at(now(), &self.sockets).is_none()
+    }
+    pub fn add_udp(&mut self, port: u16, rx_meta: usize, rx_bytes: usize, tx_meta: usize, tx_bytes: usize) -> SocketHandle {
+        let rxb = udp::PacketBuffer::new(vec![udp::PacketMetadata::EMPTY; rx_meta], vec![0u8; rx_bytes]);
+        let txb = udp::PacketBuffer::new(vec![udp::PacketMetadata::EMPTY; tx_meta], vec![0u8; tx_bytes]);
+        let mut s = udp::Socket::new(rxb, txb);
+        s.bind(port).unwrap();
+        self.sockets.add(s)
+    }
+    pub fn add_raw(&mut self, rx_meta: usize, rx_bytes: usize, tx_meta: usize, tx_bytes: usize) -> SocketHandle {
+        let rxb = raw::PacketBuffer::new(vec![raw::PacketMetadata::EMPTY; rx_meta], vec![0u8; rx_bytes]);
+        let txb = raw::PacketBuffer::new(vec![raw::PacketMetadata::EMPTY; tx_meta], vec![0u8; tx_bytes]);
+        let s = raw::Socket::new(Some(IpVersion::Ipv4), Some(IpProtocol::Unknown(PROTO_RAW)), rxb, txb);
+        self.sockets.add(s)
+    }
+    pub fn udp_send(&mut self, h: SocketHandle, payload: &[u8]) -> Result<(), String> {
+        let s = self.sockets.get_mut::<udp::Socket>(h);
+        s.send_slice(payload, (IpAddress::v4(PEER_IP[0], PEER_IP[1], PEER_IP[2], PEER_IP[3]), PEER_PORT))
+            .map_err(|e| format!("{:?}", e))
+    }
+    /// `ip_payload` is sent in a raw IPv4 packet (header built by us, re-serialized by smoltcp)
+    pub fn raw_send(&mut self, h: SocketHandle, ip_payload: &[u8]) -> Result<(), String> {
+        let mut p = ipv4_header(0, false, 0, PROTO_RAW, OUR_IP, PEER_IP, ip_payload.len(), 64).to_vec();
+        p.extend_from_slice(ip_payload);
+        let s = self.sockets.get_mut::<raw::Socket>(h);
+        s.send_slice(&p).map_err(|e| format!("{:?}", e))
+    }
+    /// queue an inbound IPv4 packet (wrapped for the medium)
+    pub fn inject(&mut self, ip_packet: Vec<u8>) {
+        self.dev.rx.push_back(inbound(self.eth, ip_packet));
+    }
+    /// queue an ICMP echo request of `icmp_len` bytes (header + data), as inbound fragments that
+    /// each fit the MTU (our own fragmenter); returns the echo reply image we expect
+    pub fn inject_echo_request(&mut self, remote_id: u16, ident: u16, seq: u16, data: &[u8]) -> Vec<u8> {
+        let req = icmp_echo(8, ident, seq, data);
+        let piece = (self.ip_mtu - 20) / 8 * 8;
+        if 20 + req.len() <= self.ip_mtu {
+            let mut p = ipv4_header(remote_id, false, 0, PROTO_ICMP, PEER_IP, OUR_IP, req.len(), 64).to_vec();
+            p.extend_from_slice(&req);
+            self.inject(p);
+        } else {
+            for f in fragment(remote_id, PROTO_ICMP, PEER_IP, OUR_IP, &req, &even_cuts(req.len(), piece)) {
+                self.inject(f);
+            }
+        }
+        icmp_echo(0, ident, seq, data)
+    }
+}
+
+pub(crate) fn medium_name(eth: bool) -> &'static str {
+    if eth {
+        "ethernet"
+    } else {
+        "ip"
+    }
+}
+
+pub fn run(tier: Tier) -> i32 {
+    let mut rep = Report::new("C12", tier);
+    rep.assumptions.push("oracle = own IPv4/UDP/ICMP/ARP builders + parser + reassembler (src/frag4/wire.rs, wirecheck.rs), RFC 1071 checksum; trusted".into());
+    rep.assumptions.push("no time passes (every call uses Instant 0): reassembly timeout and neighbor expiry are never reached".into());
+    rep.assumptions.push(format!(
+        "build-time limits in effect: FRAGMENTATION_BUFFER_SIZE={} REASSEMBLY_BUFFER_SIZE={} REASSEMBLY_BUFFER_COUNT={} ASSEMBLER_MAX_SEGMENT_COUNT={}",
+        smoltcp::config::FRAGMENTATION_BUFFER_SIZE,
+        smoltcp::config::REASSEMBLY_BUFFER_SIZE,
+        smoltcp::config::REASSEMBLY_BUFFER_COUNT,
+        smoltcp::config::ASSEMBLER_MAX_SEGMENT_COUNT
+    ));
+    rep.assumptions.push("MTU values are IP MTUs; on Medium::Ethernet the device MTU is 14 bytes larger and the neighbor is pre-resolved by an unsolicited ARP reply".into());
+    rep.assumptions.push("device checksum capabilities = default (everything computed/verified in software)".into());
+    tx::run_s1(&mut rep, tier);
+    tx::run_s1b(&mut rep, tier);
+    bfs::run_s2(&mut rep, tier);
+    rx::run_rx(&mut rep, tier);
+    rep.cov(
+        "rule",
+        json!("tx/S1: every (medium, MTU, UDP payload length) listed in s1.domain, one datagram each on a fresh interface; tx/S1b: every ordered pair of (kind,len) listed in s1b.domain; tx/S2: BFS over event sequences (alphabet in s2.alphabet) up to the stated depth with state merging on verif_digest+sockets+device+model; rx: every permutation of every fragment set listed in rx.domain (plus one-duplicate multiset permutations, overlapping retransmission mixes, two interleaved datagrams). 'states' = distinct inputs (sweeps) + distinct BFS states; 'transitions' = executions on the real stack (cases / BFS transitions)"),
+    );
+    rep.finish()
+}
+
+pub fn replay(art: &Value) -> i32 {
+    let r = &art["replay"];
+    if let Some(h) = r["harness"].as_str() {
+        return bfs::replay(h, art);
+    }
+    match r["part"].as_str() {
+        Some("s1") | Some("s1b") => tx::replay(r),
+        Some("rx") => rx::replay(r),
+        _ => {
+            eprintln!("MACHINERY ERROR: artefact has no known part/harness");
+            2
+        }
+    }
 }
